@@ -189,7 +189,9 @@ def set_objective(
             )
         # Check whether expression only uses variables from current model;
         # clone the objective if not, faster than cloning without checking
-        if not _valid_atoms(model, value.expression):
+        if not _valid_atoms(model, value.expression) or (
+            value.problem is not None and value.problem is not model.solver
+        ):
             value = interface.Objective.clone(value, model=model.solver)
 
         if not additive:
